@@ -1,7 +1,10 @@
 package verifh
 
 import (
+	"os"
+	"path/filepath"
 	"syscall"
+	"time"
 
 	"github.com/spf13/afero"
 
@@ -355,6 +358,62 @@ func TestC15(t *testing.T) {
 				}
 			}
 		}
+	}
+	// the real binary with both settings (the wiring in cmd/): outsider closed without an answer, insider served,
+	// at most N served at a time, slot recovers
+	if r.Shard == 0 && binPath() != "" {
+		logDir := binLogDir("C15")
+		must(os.MkdirAll(logDir, 0o755))
+		for _, N := range []int{1, 2} {
+			b, err := startBin([]string{"server", "--listen-addr=127.0.0.1:0", "--root=" + w.Root, "--client-whitelist=127.0.0.2-127.0.0.3", sprintf("--max-clients=%d", N)}, cleanEnv(logDir), w.Dir, filepath.Join(logDir, "server.log"), 30*time.Second)
+			if err != nil {
+				r.HarnessError("cannot start the real binary: " + err.Error())
+				break
+			}
+			r.Trace(1)
+			fail := func(sig, msg string) {
+				r.Violation("C15:bin:"+sig, sprintf("real binary with --client-whitelist=127.0.0.2-127.0.0.3 --max-clients=%d: %s", N, msg), map[string]any{"N": N})
+			}
+			// outsider: no answer (positive observation: an answer is a violation; silence/close is fine)
+			if c, err := dialFrom(b.Addr, "127.0.0.1", 10*time.Second); err == nil {
+				if ok, _, _ := c.statProbe("/", 3*time.Second); ok {
+					fail("outsider-served", "a client from 127.0.0.1 (outside the whitelist) was answered")
+				}
+				c.Close()
+			}
+			// insiders: N of them are served concurrently, the (N+1)th is answered only after one leaves
+			var held []*tcpClient
+			for k := 0; k < N; k++ {
+				c, err := dialFrom(b.Addr, "127.0.0.2", 10*time.Second)
+				if err != nil {
+					fail("insider-refused", "whitelisted client could not connect: "+err.Error())
+					break
+				}
+				held = append(held, c)
+				if ok, _, _ := c.statProbe("/", 30*time.Second); !ok {
+					fail("insider-not-served", sprintf("whitelisted client %d of %d was not answered within 30 s", k+1, N))
+				}
+			}
+			extra, err := dialFrom(b.Addr, "127.0.0.3", 10*time.Second)
+			if err == nil {
+				if ok, _, _ := extra.statProbe("/", 2*time.Second); ok {
+					fail("limit-exceeded", sprintf("client %d was answered while %d others are still being served", N+1, N))
+				} else if len(held) > 0 {
+					held[0].Close()
+					held = held[1:]
+					if resp, err := extra.readN(szStat, 30*time.Second); err != nil || len(resp) != szStat {
+						fail("capacity-lost", "after one client left, the waiting client was not answered within 30 s")
+					}
+				}
+				extra.Close()
+			}
+			for _, c := range held {
+				c.Close()
+			}
+			b.Stop()
+			r.Outcome("bin-admission-ok")
+		}
+		os.RemoveAll(logDir)
 	}
 	r.Assume("listener wrappers are composed in the harness in the same order as cmd/ps3netsrv-go/server.go; the wiring of the real binary is exercised by the binary probes (C19)")
 }
